@@ -1128,6 +1128,7 @@ func c02drain(c *an.Ctx) {
 var indexInvariants = map[string]string{
 	"lexer.leftDelim":    "set only from non-empty values (constructor default; setDelimiters stores a parameter only under param != \"\", C03.delims)",
 	"lexer.leftComment":  "set only from non-empty values (constructor default; setCommentDelimiters stores a parameter only under param != \"\", C03.delims)",
+	"(*Template).newNumber/text": "newNumber receives the text of a number or character-constant token, which the lexer emits only after consuming at least its first character (lexNumber / lexChar)",
 	"lexIdentifier/word": "lexIdentifier is entered only with an alphanumeric rune pending (lexInsideAction backs up over it), so input[start:pos] holds at least that rune",
 }
 
@@ -1139,7 +1140,7 @@ func c02index(c *an.Ctx) {
 			continue
 		}
 		file := p.Fset.Position(f.Pos()).Filename
-		if !(strings.HasSuffix(file, "/lex.go") || strings.HasSuffix(file, "/parse.go") || strings.HasSuffix(file, "/node.go")) {
+		if !(strings.HasSuffix(file, "/lex.go") || strings.HasSuffix(file, "/parse.go") || strings.HasSuffix(file, "/node.go") || strings.HasSuffix(file, "/constructors.go")) {
 			continue
 		}
 		info := f.Info()
@@ -1289,6 +1290,11 @@ func c02index(c *an.Ctx) {
 				inv = indexInvariants[fk]
 			} else if r := indexInvariants[f.Name+"/"+an.Str(ix.X)]; r != "" {
 				inv = r
+			}
+			if kv, ok := info.Types[ix.Index]; ok && kv.Value != nil {
+				if k, _ := constant.Int64Val(kv.Value); k != 0 {
+					inv = "" // the invariants say "non-empty": they cover index 0 only
+				}
 			}
 			switch {
 			case inv != "":
